@@ -200,8 +200,80 @@ theorem getMd_returns_last_set (cap : Nat) (ops more : List Op) (k : Key) (sc : 
         simp only [mdGet_mdSet_self] at hm; simp at hm; rw [hm]
   simp only [output, apply, getMd, lookup, hb', inScope, if_true, hst, hnow]
 
+/-- **(1'') size accounting after failed creations.** After every history, a `Create` that gets past
+admission and then fails on the file system (`MkdirAll` / `OpenFile`, `createFailing`) leaves the
+invariants intact — reserved space is still the sum of the live blob sizes and within capacity, the
+eviction queue is still exactly the evictable blobs —, adds no entry, and has evicted exactly what the
+successful `Create` would have evicted. -/
+theorem failed_create_keeps_accounting (cap : Nat) (hcap : cap < U64) (ops : List Op) (k : Key) (n : Nat) (d : Bytes) :
+    let s := (sys cap).run ops
+    let s' := (createFailing s k n).1
+    s'.size = s'.blobs.total ∧ s'.size ≤ s'.cap ∧
+    (∀ k', k' ∈ s'.queue ↔ ∃ b, s'.blobs.get k' = some b ∧ b.complete = true ∧ b.banned = false) ∧
+    (s.blobs.get k = none → s'.blobs.get k = none) ∧
+    (∀ k', k' ≠ k → s'.blobs.get k' = (create s k n d).1.blobs.get k') := by
+  intro s s'
+  have hg : Good s := good_run hcap ops
+  have hg' : Good s' := good_createFailing hg k n
+  refine ⟨hg'.sum, hg'.le, hg'.qmem, ?_, ?_⟩
+  · intro hnone
+    show (createFailing s k n).1.blobs.get k = none
+    unfold createFailing
+    rw [hnone]
+    have hn : (ensureFree s n).1.blobs.get k = none := evictLoop_get_none n k s.queue s rfl hnone
+    simp only
+    split <;> (rename_i h; have e : _ = (ensureFree s n).1 := (congrArg Prod.fst h).symm; simp only at e; rw [e]; exact hn)
+  · intro k' hk'
+    show (createFailing s k n).1.blobs.get k' = (create s k n d).1.blobs.get k'
+    unfold createFailing create
+    split
+    · rfl
+    · split <;> simp_all [BMap.get_set_ne]
+
+-- a failed creation that had to evict: the evicted blob is gone, its space is free again
+example : ((createFailing ((sys 4).run [.create 0 3 [1], .markComplete 0]) 1 2).1.size,
+    (createFailing ((sys 4).run [.create 0 3 [1], .markComplete 0]) 1 2).1.blobs.keys) = (0, []) := by decide
+
+/-- **(6'') … and across the completion of the blob.** A *movable* metadata entry set on a blob (complete
+or not) is read back after any further history that contains no metadata call on `(k, m.sfx)` —
+`MarkComplete(k)` may occur in it: the common sequence `SetMetadata` on an incomplete blob,
+`MarkComplete`, `GetMetadata` — as long as `k` is still the same incarnation. -/
+theorem getMd_survives_completion (cap : Nat) (ops more : List Op) (k : Key) (sc : Scope) (m : Md)
+    (hmov : m.movable = true)
+    (hset : output ((sys cap).run ops) (.setMd k sc m) = .ok)
+    (hno : ∀ o ∈ more, writesMd o k m.sfx = false)
+    (b b' : Blob)
+    (hb : ((sys cap).run (ops ++ [.setMd k sc m])).blobs.get k = some b)
+    (hb' : ((sys cap).run (ops ++ [.setMd k sc m] ++ more)).blobs.get k = some b')
+    (hinc : b'.inc = b.inc) :
+    output ((sys cap).run (ops ++ [.setMd k sc m] ++ more)) (.getMd k .any m.sfx) = .bytes m.val := by
+  have hg := goodInc_run cap (ops ++ [.setMd k sc m])
+  have hcap : ((sys cap).run (ops ++ [.setMd k sc m])).cap = cap := run_cap cap _
+  have hrun : (sys cap).run (ops ++ [.setMd k sc m] ++ more) =
+      (sys ((sys cap).run (ops ++ [.setMd k sc m])).cap).runFrom ((sys cap).run (ops ++ [.setMd k sc m])) more := by
+    rw [hcap, Sys.run_append]
+  -- right after the set the value is there
+  have hnow : mdGet b.mds m.sfx = some m := by
+    have hs : (sys cap).run (ops ++ [.setMd k sc m]) = step ((sys cap).run ops) (.setMd k sc m) := by
+      rw [Sys.run_append]; rfl
+    rw [hs] at hb
+    simp only [step, apply, setMd] at hb
+    split at hb
+    · simp only [output, apply, setMd] at hset; rename_i e he; rw [he] at hset; simp at hset
+    · rw [BMap.get_set_self] at hb; simp at hb; subst hb
+      simp only [mdGet_mdSet_self]
+  have hst := md_stable_movable k m.sfx m hmov more _ hg hno b b' hb hnow (by rw [← hrun]; exact hb') hinc
+  simp only [output, apply, getMd, lookup, hb', inScope, if_true, hst]
+
+-- completing the blob in between: the movable entry is read back, the immovable one is gone
+example : output ((sys 10).run [.create 1 2 [7], .setMd 1 .any ⟨0, true, [5]⟩, .setMd 1 .any ⟨1, false, [6]⟩,
+    .markComplete 1]) (.getMd 1 .complete 0) = .bytes [5] := by decide
+example : output ((sys 10).run [.create 1 2 [7], .setMd 1 .any ⟨0, true, [5]⟩, .setMd 1 .any ⟨1, false, [6]⟩,
+    .markComplete 1]) (.getMd 1 .complete 1) = .absent := by decide
+
 /-- **(7) non-movable metadata disappears on completion** (and movable metadata stays): completing
-an incomplete blob keeps exactly its movable metadata. -/
+an incomplete blob keeps exactly its movable metadata (first conjunct: the new entry is the old one with
+`mds.filter movable`; the second conjunct only spells out what `filter` means). -/
 theorem markComplete_metadata (s : State) (k : Key) (b : Blob) (hb : s.blobs.get k = some b)
     (hc : b.complete = false) :
     (step s (.markComplete k)).blobs.get k =
